@@ -243,6 +243,16 @@ end
 
 /-! ### the layouts on which the emitted struct parser is shown to agree with the reference decoder -/
 
+/-- padding the theorem covers: a statically counted array of scalars that fits its padded size (the emitted parser
+    does not bound an array by its padding: KF-C14-padded-array-overrun) -/
+def padOk (pad : Option Nat) (elem : Ty) (ew : ElemWidth) (shape : Shape) : Bool :=
+  match pad with
+  | none => true
+  | some p =>
+    match elem, ew, shape with
+    | .scalar w', .static w, .static n => w == w' / 8 && decide (n * w ≤ p)
+    | _, _, _ => false
+
 /-- the product `element size * count` is exact: a count field of at most 16 bits -/
 def countOk (all : Items) (id : String) (w : Nat) : Bool :=
   match countWidth id all with
@@ -260,7 +270,7 @@ def wfTy : Ty → Bool
   | .custom .. => false
   | _ => true
 /-- no array size modifier; a struct field of unknown size is the last field; count fields of statically sized
-    elements at most 16 bits wide; no padded arrays; no element-size or custom fields; the octets kept after an
+    elements at most 16 bits wide; padding only after statically counted arrays of scalars that fit it; no element-size or custom fields; the octets kept after an
     unsized payload are what the fields that follow occupy -/
 def wfItem (all rest : Items) : Item → Bool
   | .chunk fs => fs.all Py.bfPlain
@@ -271,7 +281,7 @@ def wfItem (all rest : Items) : Item → Bool
   | .payload (.beforeStatic k) => Py.tailKeep rest == k
   | .payload .undelimited => false
   | .array id elem ew shape pad =>
-    pad.isNone && id != "_payload_" && wfTy elem &&
+    padOk pad elem ew shape && id != "_payload_" && wfTy elem &&
     (match ew with
      | .static w => staticTy elem == some w && localWfTy elem &&
          (match shape with | .countField => countOk all id w | _ => true)
@@ -425,7 +435,7 @@ def viewDecode (c : Cfg) : Body → Bytes → Dec Value
     the getters are lenient: KF-C14-enum-array, KF-C14-struct-array-*) -/
 def vwfItem (all rest : Items) : Item → Bool
   | .array id elem ew shape pad =>
-    pad.isNone && id != "_payload_" &&
+    padOk pad elem ew shape && id != "_payload_" &&
     (match elem, ew with
      | .scalar w', .static w => w == w' / 8 && decide (0 < w) &&
          (match shape with | .countField => countOk all id w | _ => true)
